@@ -83,6 +83,42 @@ func H_C14seq(i, j int) {
 	verif.Cover("history-checked")
 }
 
+// HistSources are further programs of the call-history check: ones whose user-chosen names
+// meet the generated subquery names, and ones that generate several subqueries.
+var HistSources = []string{
+	"T | as __subquery0",
+	"T | as __subquery1 | count | count | count",
+	"T | count | count",
+	"T | where a | take 1 | where b | take 2 | count",
+	"A | join kind=zz (B) on k",
+	"A | join (B | as __subquery0 | count) on k | count",
+}
+
+func histSource(k int) string {
+	if k < len(PureSources) {
+		return PureSources[k]
+	}
+	return HistSources[k-len(PureSources)]
+}
+
+// NumHistSources is the number of programs of H_C14hist.
+const NumHistSources = 14
+
+// H_C14hist: the result of compiling program j in a process that has compiled
+// nothing else, or exactly one arbitrary other program before. Every path starts
+// from the process's initial state; the check compares the observation "result"
+// across all paths of the run (and across fresh native processes to confirm).
+func H_C14hist(j int) {
+	opts := &pql.CompileOptions{Parameters: map[string]string{"p": "$1"}}
+	i := verif.Concrete(verif.IntRange(0, NumHistSources+1))
+	if i < NumHistSources {
+		compileRes(opts, histSource(i))
+	}
+	verif.Obs("result", compileRes(opts, histSource(j)))
+	verif.Obs("parse", parseRes(histSource(j)))
+	verif.Cover("call-history-checked")
+}
+
 // H_C14par: two concurrent Compile calls sharing their options, cold (very
 // first calls in the process) or warm, under every interleaving of their
 // visible operations: no data race, and each result equals the sequential one.
